@@ -459,9 +459,9 @@ ISR_STAGES = lambda sfx: [
     Stage('isr-random', ['harness/sched_isr.c'] + SHIM, FIBI, preset='shim', nproc=16,
           args={'quick': ['--extra', 'random' + sfx], 'thorough': ['--extra', 'random' + sfx]},
           needs_min={'random_runs': 10000, 'atomic_requests_refused(queue full)': 100}),
-] + ([] if sfx else [
+] + ([] if sfx == ':c03' else [
     Stage('co', ['harness/sched_isr.c'] + SHIM, FIBI, preset='shim', nproc=16,
-          args={'quick': ['--extra', 'co'], 'thorough': ['--extra', 'co']},
+          args={'quick': ['--extra', 'co' + sfx], 'thorough': ['--extra', 'co' + sfx]},
           needs_min={'coroutine_schedules': 5000, 'events_delivered': 10000})])
 PROPS['C03']['stages'] += ISR_STAGES(':c03')
 PROPS['C03']['rule'] += (' isr-*: the scenario family of C06 (event handler + yielder + sleeper, 8 scenarios) under a '
@@ -694,3 +694,16 @@ for _pid in ('C06', 'C15'):
 # real-thread legs under ASan+UBSan (the TSan twins are C07's stages); thorough tier only
 PROPS['C04']['stages'].append(thr_stage('thr-asan', 'mq', 'asan', tiers=('thorough',)))
 PROPS['C06']['stages'].append(thr_stage('thr-asan', 'fibre', 'asan', tiers=('thorough',)))
+
+
+# C01: order of arrival of interrupt-context requests when the drain loop itself is interrupted (engine E2)
+PROPS['C01']['stages'] += [st for st in ISR_STAGES(':c01')]
+for _st in PROPS['C01']['stages']:
+    if _st.name.startswith('isr-') or _st.name == 'co':
+        _st.needs_min = dict(_st.needs_min, ordered_request_pairs_checked=1000) if _st.name != 'isr-sweep' else _st.needs_min
+PROPS['C01']['rule'] += (' isr-*/co: the C06 scenario family plus two plain waiter fibres; interrupt handlers (9 kinds, incl. '
+                         'bursts that fill the 8-slot request queue) injected before every schedule point, nested pairs, '
+                         'random runs and free-running sender coroutines; oracle: of two requests whose calls did not '
+                         'overlap, for different fibres, the later one for a fibre with no other reason to run, the '
+                         'earlier one is served first (order of arrival), and no accepted request is lost.')
+PROPS['C01']['engine'] = 'E1+E2'
